@@ -16,39 +16,58 @@ shape (go/types prints different types differently; F7 is the known exception).
 namespace Gengo.WalkIso
 open Gengo Gengo.Universe Gengo.WalkInv Gengo.WalkDesc Gengo.WalkName
 
-/-- the name under which a reference to node `c` is resolved (type aliases are transparent) -/
-inductive ResName (F : Facts) (v2 : Bool) : Nat → Name → Prop
-  | alias {c t : Nat} {n : Name} : F.node c = .alias t → ResName F v2 t n → ResName F v2 c n
-  | basic {c : Nat} {nm : Str} : F.node c = .basic nm → ResName F v2 c ⟨[], nm⟩
-  | byName {c : Nat} : (∀ t, F.node c ≠ .alias t) → (∀ nm, F.node c ≠ .basic nm) → ResName F v2 c (nameOf v2 (F.str c))
+/-- the name under which a reference to node `c` is resolved (type aliases are transparent); the flag says that `c` is a
+type parameter, which is not looked up but stands for a `TypeParam` object of that name -/
+inductive ResName (F : Facts) (v2 : Bool) : Nat → Bool → Name → Prop
+  | alias {c t : Nat} {b : Bool} {n : Name} : F.node c = .alias t → ResName F v2 t b n → ResName F v2 c b n
+  | basic {c : Nat} {nm : Str} : F.node c = .basic nm → ResName F v2 c false ⟨[], nm⟩
+  | tparam {c k : Nat} : F.node c = .tparam k → ResName F v2 c true (nameOf v2 (F.str c))
+  | byName {c : Nat} : (∀ t, F.node c ≠ .alias t) → (∀ nm, F.node c ≠ .basic nm) → (∀ k, F.node c ≠ .tparam k) →
+      ResName F v2 c false (regName F v2 c)
 
-theorem ResName.unique {F : Facts} {v2 : Bool} {c : Nat} {n n' : Name} (h : ResName F v2 c n) (h' : ResName F v2 c n') : n = n' := by
-  induction h generalizing n' with
+theorem ResName.unique {F : Facts} {v2 : Bool} {c : Nat} {b b' : Bool} {n n' : Name} (h : ResName F v2 c b n) (h' : ResName F v2 c b' n') :
+    b = b' ∧ n = n' := by
+  induction h generalizing b' n' with
   | alias hn _ ih =>
     cases h' with
     | alias hn' hr' => rw [hn] at hn'; cases hn'; exact ih hr'
     | basic hn' => rw [hn] at hn'; cases hn'
-    | byName h1 _ => exact absurd hn (h1 _)
+    | tparam hn' => rw [hn] at hn'; cases hn'
+    | byName h1 _ _ => exact absurd hn (h1 _)
   | basic hn =>
     cases h' with
     | alias hn' _ => rw [hn] at hn'; cases hn'
-    | basic hn' => rw [hn] at hn'; cases hn'; rfl
-    | byName _ h2 => exact absurd hn (h2 _)
-  | byName h1 h2 =>
+    | basic hn' => rw [hn] at hn'; cases hn'; exact ⟨rfl, rfl⟩
+    | tparam hn' => rw [hn] at hn'; cases hn'
+    | byName _ h2 _ => exact absurd hn (h2 _)
+  | tparam hn =>
+    cases h' with
+    | alias hn' _ => rw [hn] at hn'; cases hn'
+    | basic hn' => rw [hn] at hn'; cases hn'
+    | tparam hn' => exact ⟨rfl, rfl⟩
+    | byName _ _ h3 => exact absurd hn (h3 _)
+  | byName h1 h2 h3 =>
     cases h' with
     | alias hn' _ => exact absurd hn' (h1 _)
     | basic hn' => exact absurd hn' (h2 _)
-    | byName _ _ => rfl
+    | tparam hn' => exact absurd hn' (h3 _)
+    | byName _ _ _ => exact ⟨rfl, rfl⟩
+
+/-- `r` in `u` is what a reference resolved as `(b, n)` denotes -/
+def Denotes (u : U) (b : Bool) (n : Name) (r : Nat) : Prop :=
+  (b = false ∧ AL.lookup n u.types = some r) ∨
+  (b = true ∧ ∃ ob : Obj, u.objs[r]? = some ob ∧ ob.kind = .typeParam ∧ ob.name = n)
 
 theorem res_name {F : Facts} {v2 : Bool} {u : U} {c r : Nat} (h : Res F v2 u c r) :
-    ∃ n, ResName F v2 c n ∧ AL.lookup n u.types = some r := by
+    ∃ b n, ResName F v2 c b n ∧ Denotes u b n r := by
   induction h with
-  | alias hn _ ih => obtain ⟨n, h1, h2⟩ := ih; exact ⟨n, .alias hn h1, h2⟩
-  | basic hn hl => exact ⟨_, .basic hn, hl⟩
-  | byName h1 h2 hl => exact ⟨_, .byName h1 h2, hl⟩
+  | alias hn _ ih => obtain ⟨b, n, h1, h2⟩ := ih; exact ⟨b, n, .alias hn h1, h2⟩
+  | basic hn hl => exact ⟨false, _, .basic hn, .inl ⟨rfl, hl⟩⟩
+  | tparam hn ho => exact ⟨true, _, .tparam hn, .inr ⟨rfl, ho⟩⟩
+  | byName h1 h2 h3 hl => exact ⟨false, _, .byName h1 h2 h3, .inl ⟨rfl, hl⟩⟩
 
-/-- two child nodes are resolved under the same name -/
-def KidEq (F : Facts) (v2 : Bool) (c1 c2 : Nat) : Prop := ∃ n, ResName F v2 c1 n ∧ ResName F v2 c2 n
+/-- two child nodes are resolved alike -/
+def KidEq (F : Facts) (v2 : Bool) (c1 c2 : Nat) : Prop := ∃ b n, ResName F v2 c1 b n ∧ ResName F v2 c2 b n
 
 def FieldEq (F : Facts) (v2 : Bool) (f g : GField) : Prop :=
   f.name = g.name ∧ f.embedded = g.embedded ∧ f.tag = g.tag ∧ KidEq F v2 f.ty g.ty
@@ -77,8 +96,8 @@ def NodeEq (F : Facts) (v2 : Bool) (g1 g2 : Nat) : Prop :=
 def Consistent (F : Facts) (v2 : Bool) : Prop :=
   ∀ n g1 g2, NameFor F v2 n g1 → NameFor F v2 n g2 → NodeEq F v2 g1 g2
 
-/-- `r1` in `u1` and `r2` in `u2` are registered under one name -/
-def Linked (u1 u2 : U) (r1 r2 : Nat) : Prop := ∃ n : Name, AL.lookup n u1.types = some r1 ∧ AL.lookup n u2.types = some r2
+/-- `r1` in `u1` and `r2` in `u2` are registered under one name, or are type parameters of one name -/
+def Linked (u1 u2 : U) (r1 r2 : Nat) : Prop := ∃ b n, Denotes u1 b n r1 ∧ Denotes u2 b n r2
 
 def OptLinked (u1 u2 : U) (x1 x2 : Option Nat) : Prop := ∃ r1 r2, x1 = some r1 ∧ x2 = some r2 ∧ Linked u1 u2 r1 r2
 
@@ -101,25 +120,21 @@ structure ObjEq (u1 u2 : U) (ob1 ob2 : Obj) : Prop where
     All2 (PEq u1 u2) ob1.results ob2.results
   under : ob1.kind = .alias → OptLinked u1 u2 ob1.under ob2.under
 
+theorem res_linked {F : Facts} {v2 : Bool} {u1 u2 : U} {r1 r2 a b : Nat}
+    (q1 : Res F v2 u1 a r1) (q2 : Res F v2 u2 b r2) (hk : KidEq F v2 a b) : Linked u1 u2 r1 r2 := by
+  obtain ⟨b1, n1, a1, l1⟩ := res_name q1
+  obtain ⟨b2, n2, a2, l2⟩ := res_name q2
+  obtain ⟨bb, n, k1, k2⟩ := hk
+  obtain ⟨e1, e1'⟩ := a1.unique k1
+  obtain ⟨e2, e2'⟩ := a2.unique k2
+  subst e1 e1' e2 e2'
+  exact ⟨_, _, l1, l2⟩
+
 theorem elem_linked {F : Facts} {v2 : Bool} {u1 u2 : U} {x1 x2 : Option Nat} {a b : Nat}
     (h1 : ElemIs F v2 u1 x1 a) (h2 : ElemIs F v2 u2 x2 b) (hk : KidEq F v2 a b) : OptLinked u1 u2 x1 x2 := by
   obtain ⟨r1, e1, q1⟩ := h1
   obtain ⟨r2, e2, q2⟩ := h2
-  obtain ⟨n1, a1, l1⟩ := res_name q1
-  obtain ⟨n2, a2, l2⟩ := res_name q2
-  obtain ⟨n, k1, k2⟩ := hk
-  have e1' : n1 = n := a1.unique k1
-  have e2' : n2 = n := a2.unique k2
-  exact ⟨r1, r2, e1, e2, n, e1' ▸ l1, e2' ▸ l2⟩
-
-theorem res_linked {F : Facts} {v2 : Bool} {u1 u2 : U} {r1 r2 a b : Nat}
-    (q1 : Res F v2 u1 a r1) (q2 : Res F v2 u2 b r2) (hk : KidEq F v2 a b) : Linked u1 u2 r1 r2 := by
-  obtain ⟨n1, a1, l1⟩ := res_name q1
-  obtain ⟨n2, a2, l2⟩ := res_name q2
-  obtain ⟨n, k1, k2⟩ := hk
-  have e1' : n1 = n := a1.unique k1
-  have e2' : n2 = n := a2.unique k2
-  exact ⟨n, e1' ▸ l1, e2' ▸ l2⟩
+  exact ⟨r1, r2, e1, e2, res_linked q1 q2 hk⟩
 
 /-- composing three pointwise relations -/
 theorem All2.zip3 {α β : Type} {R : α → β → Prop} {S : α → β → Prop} {T : β → β → Prop} {Q : α → α → Prop}
@@ -223,10 +238,10 @@ theorem same_name_same_content {bt : List Builtin} {F : Facts} {v2 : Bool} (hc :
 /-! ## both loaders produce faithful universes, in any split and order -/
 open Gengo.Loader
 
-theorem faithful_keeps (w : World) (hng : NoGenerics w.facts) (hwf : WellFormed w.facts w.v2) (hbt : BtKinds w.bt) :
+theorem faithful_keeps (w : World) (hwf : WellFormed w.facts w.v2) (hbt : BtKinds w.bt) :
     Keeps w (Faithful w.bt w.facts w.v2) where
   same := fun _ _ ho ht hb hd h => ⟨full_of_same ho ht hb hd h.1, same_sn ho ht hb h.2⟩
-  add := fun u ob u' h hf => ⟨addObj_full w.facts w.v2 hng hwf w.fuel u ob u' h.1 hf,
+  add := fun u ob u' h hf => ⟨addObj_full w.facts w.v2 hwf w.fuel u ob u' h.1 hf,
     (addObj_ninv w.facts w.v2 hbt w.fuel u ob u' ⟨h.1.1, h.2⟩ hf).2⟩
 
 theorem faithful_empty (bt : List Builtin) (F : Facts) (v2 : Bool) : Faithful bt F v2 {} :=
@@ -240,18 +255,18 @@ def loadsV2 (w : World) (st : LState) (ms : List (List Str)) : Option LState :=
 def addDirsV1 (w : World) (st : LState) (ps : List Str) : Option LState :=
   ps.foldl (fun acc p => acc.bind (fun s => addDirToV1 w s p)) (some st)
 
-theorem loadsV2_faithful (w : World) (hng : NoGenerics w.facts) (hwf : WellFormed w.facts w.v2) (hbt : BtKinds w.bt)
+theorem loadsV2_faithful (w : World) (hwf : WellFormed w.facts w.v2) (hbt : BtKinds w.bt)
     (req : List Str) (ms : List (List Str)) (a st : LState) (h1 : newUniverseV2 w req = some a) (h2 : loadsV2 w a ms = some st) :
     Faithful w.bt w.facts w.v2 st.u := by
-  have k := faithful_keeps w hng hwf hbt
+  have k := faithful_keeps w hwf hbt
   have ha := k.newUniverseV2 (faithful_empty _ _ _) req a h1
   exact foldl_bind_inv (fun s m => loadToV2 w s m) (fun s => Faithful w.bt w.facts w.v2 s.u)
     (fun s m s' hs hv => k.loadToV2 s s' m hs hv) ms a st ha h2
 
-theorem addDirsV1_faithful (w : World) (hng : NoGenerics w.facts) (hwf : WellFormed w.facts w.v2) (hbt : BtKinds w.bt)
+theorem addDirsV1_faithful (w : World) (hwf : WellFormed w.facts w.v2) (hbt : BtKinds w.bt)
     (req : List Str) (ps : List Str) (a st : LState) (h1 : findTypesV1 w req = some a) (h2 : addDirsV1 w a ps = some st) :
     Faithful w.bt w.facts w.v2 st.u := by
-  have k := faithful_keeps w hng hwf hbt
+  have k := faithful_keeps w hwf hbt
   have ha := k.findTypesV1 (faithful_empty _ _ _) req a h1
   exact foldl_bind_inv (fun s p => addDirToV1 w s p) (fun s => Faithful w.bt w.facts w.v2 s.u)
     (fun s p s' hs hv => k.addDirToV1 s s' p hs hv) ps a st ha h2
